@@ -99,6 +99,7 @@ structure Node (A : UtxoAlg) where
   tip       : Chain
   utxo      : A.U                -- what cache ∪ database answer (C03's abstraction map)
   lastFlush : Option Chain       -- `lastFlushHash` (none = zero hash)
+  orphans   : List Chain         -- orphan pool (in memory only)
   img       : Image A
   log       : List (Commit A)
 
@@ -123,32 +124,44 @@ def flushIfNeeded (cfg : Cfg) (nd : Node A) (at_ : Chain) : Node A :=
 def flushRequired (nd : Node A) : Node A :=
   emit { nd with lastFlush := some nd.tip } (.utxoFlush nd.utxo nd.tip)
 
-/-- `connectBlock` (the cache has already connected the transactions). -/
-def connectBlock (cfg : Cfg) (nd : Node A) (n : Chain) : Node A :=
-  let nd := flushDirty nd
-  let nd := emit nd (.connect n none)
-  flushIfNeeded cfg { nd with tip := n } n
-
-/-- `disconnectBlock` of the current tip. -/
-def disconnectTip (nd : Node A) : Node A :=
-  match nd.tip with
-  | [] => nd
-  | b :: p =>
+/-- `connectBlock` (the cache has already connected the transactions).  The
+first check is the assertion "connectBlock must be called with a block that
+extends the main chain". -/
+def connectBlock (cfg : Cfg) (nd : Node A) (n : Chain) : Node A × Bool :=
+  if n = [] ∨ n.tail ≠ nd.tip then (nd, false)
+  else
     let nd := flushDirty nd
-    let u := A.disc b nd.utxo
-    let nd := emit nd (.disconnect (b :: p) u)
-    { nd with tip := p, utxo := u, lastFlush := some p }
+    let nd := emit nd (.connect n none)
+    (flushIfNeeded cfg { nd with tip := n } n, true)
 
-def disconnectN : Nat → Node A → Node A
-  | 0, nd => nd
-  | k + 1, nd => disconnectN k (disconnectTip nd)
+/-- `disconnectBlock` of the current tip; fails when the parent block cannot
+be loaded from the database. -/
+def disconnectTip (nd : Node A) : Node A × Bool :=
+  match nd.tip with
+  | [] => (nd, false)
+  | b :: p =>
+    if p ∉ nd.img.stored then (nd, false)
+    else
+      let nd := flushDirty nd
+      let u := A.disc b nd.utxo
+      let nd := emit nd (.disconnect (b :: p) u)
+      ({ nd with tip := p, utxo := u, lastFlush := some p }, true)
 
-/-- connect loop of `reorganizeChain`: blocks fork-side first, each on the current tip. -/
-def connectAll (cfg : Cfg) : List Blk → Node A → Node A
-  | [], nd => nd
-  | b :: rest, nd =>
-    let nd := { nd with utxo := A.conn b nd.utxo }
-    connectAll cfg rest (connectBlock cfg nd (b :: nd.tip))
+def disconnectN : Nat → Node A → Node A × Bool
+  | 0, nd => (nd, true)
+  | k + 1, nd =>
+    match disconnectTip nd with
+    | (nd, true) => disconnectN k nd
+    | (nd, false) => (nd, false)
+
+/-- connect loop of `reorganizeChain`: the attach nodes lowest first. -/
+def connectAll (cfg : Cfg) : List Chain → Node A → Node A × Bool
+  | [], nd => (nd, true)
+  | [] :: _, nd => (nd, false)
+  | (b :: c) :: rest, nd =>
+    match connectBlock cfg { nd with utxo := A.conn b nd.utxo } (b :: c) with
+    | (nd, true) => connectAll cfg rest nd
+    | (nd, false) => (nd, false)
 
 /-- All ancestors-or-self of a chain, the chain itself first, genesis last. -/
 def suffixes : Chain → List Chain
@@ -207,15 +220,19 @@ def reorg (cfg : Cfg) (nd : Node A) (n : Chain) : Node A × Res :=
       let (nd, ok) := verifyAttach nd (discAll nd.utxo nd.tip nDetach) fork bs
       if !ok then (flushDirty nd, .rej)
       else
-        let nd := disconnectN nDetach nd
-        let nd := connectAll cfg bs nd
-        (flushDirty nd, .okMain)
+        match disconnectN nDetach nd with
+        | (nd, false) => (flushDirty nd, .rej)
+        | (nd, true) =>
+          match connectAll cfg as_ nd with
+          | (nd, false) => (flushDirty nd, .rej)
+          | (nd, true) => (flushDirty nd, .okMain)
 
 /-- `ProcessBlock` of block `b` whose parent is `p`. -/
 def deliver (cfg : Cfg) (nd : Node A) (b : Blk) (p : Chain) : Node A × Res :=
   let n := b :: p
   if n ∈ keys nd.index then (nd, .dup)
-  else if p ∉ keys nd.index then (nd, .orphan)
+  else if n ∈ nd.orphans then (nd, .dup)
+  else if p ∉ keys nd.index then ({ nd with orphans := n :: nd.orphans }, .orphan)
   else if (statusOf nd.index p).knownInvalid then (nd, .rej)
   else
     let nd := emit nd (.storeBlock n)
@@ -223,8 +240,9 @@ def deliver (cfg : Cfg) (nd : Node A) (b : Blk) (p : Chain) : Node A × Res :=
     if p = nd.tip then
       if A.ok b nd.utxo then
         let nd := flushDirty (setStatus nd n { valid := true })
-        let nd := { nd with utxo := A.conn b nd.utxo }
-        (connectBlock cfg nd n, .okMain)
+        match connectBlock cfg { nd with utxo := A.conn b nd.utxo } n with
+        | (nd, true) => (nd, .okMain)
+        | (nd, false) => (flushDirty nd, .rej)
       else
         (flushDirty (setStatus nd n { failed := true }), .rej)
     else if n.length ≤ nd.tip.length then (nd, .okSide)
@@ -282,7 +300,7 @@ def markValid (nd : Node A) : List Chain → Node A
 the bucket-version transaction, `InitConsistentState`. The returned node's
 `log` holds the commits made by the start-up itself. -/
 def recover (cfg : Cfg) (img : Image A) : Except Corrupt (Node A) :=
-  let nd0 : Node A := { index := [], dirty := [], tip := [], utxo := img.utxo, lastFlush := none,
+  let nd0 : Node A := { index := [], dirty := [], tip := [], utxo := img.utxo, lastFlush := none, orphans := [],
                         img := img, log := [] }
   if !img.created then
     let nd := emit { nd0 with index := [([], genesisStatus)] } .create
